@@ -59,8 +59,10 @@ def get_unit_and_comment_from_assignment(
             try:
                 # Try to parse the unit
                 unit = units.ureg(potential_unit.text)
-            except (units.pint.UndefinedUnitError, AttributeError):
-                # Not a proper unit so it's a comment
+            except Exception:
+                # Not a proper unit so it's a comment. Note that pint evaluates
+                # the text, so any exception can be raised here, e.g
+                # ZeroDivisionError for '1/0' or a syntax error for '('
                 return None, atoms.Comment(potential_unit.text)
             else:
                 if isinstance(unit, units.pint.Quantity):
